@@ -104,6 +104,15 @@ impl SendDispatcher<'_> {
     }
 }
 
+#[cfg(feature = "verif-hooks")]
+impl SendDispatcher<'_> {
+    /// Verification hook: the executed layout, as the number of systems in
+    /// every group of every stage.
+    pub fn verif_shape(&self) -> Vec<Vec<usize>> {
+        self.stages.iter().map(Stage::verif_group_sizes).collect()
+    }
+}
+
 impl RunNow<'_> for SendDispatcher<'_> {
     fn run_now(&mut self, world: &World) {
         self.dispatch(world);
